@@ -121,6 +121,19 @@ CHECKS = {
             "(R02f) removal/insertion/replacement costs are positive wherever the penalty can be 0. Positivity of "
             "computed costs for arbitrary unequal values is NOT decided.",
             "DESIGN.md section 4 C02"),
+    "C19": ("who-may-call / capability analysis of the expression evaluator: reflective-primitive census with guard "
+            "dominance, operator-table inspection, name-resolution dataflow, whitelist set comparison against the "
+            "documentation and a denylist, capability closure over reachable built-in types",
+            "Static analysis; the property is a capability statement about code, so it is decided for every expression "
+            "string at once: (R19a) getattr and all other reflective primitives occur only in get_member, dominated by "
+            "`if name.startswith('_'): raise` on the same name, after the identifier-token type test; (R19b) the '.' "
+            "operator executes exactly get_member with its right operand unexpanded and no other operator reads "
+            "attributes; (R19c) identifiers resolve only through the supplied mappings with DEFAULT_GLOBALS the only "
+            "default; (R19d) the whitelist equals the documented 35 names and contains no reflective built-in; (R19e) "
+            "capability closure: public attribute-traversing methods of reachable built-in values (str.format/format_map) "
+            "- a genuine leak on today's tree, recorded as a known finding. Objects the caller places in the environment "
+            "may expose further traversing methods; out of scope.",
+            "DESIGN.md section 4 C19"),
 }
 
 NOT_YET = "check not built yet in this session (static rules designed in DESIGN.md; will be claimed once the rule runs clean)"
